@@ -82,6 +82,8 @@ fn c04_coverage_format2() {
         None
     };
     assert!(cov.glyph_coverage_value(q) == expect);
+    // the number of glyphs covered is the sum of the range widths
+    assert!(cov.glyph_count() == (e0 - s0) as usize + 1 + (e1 - s1) as usize + 1);
     kani::cover!(matches!(expect, Some(v) if v > 300), "deep index");
     std::mem::forget(cov);
 }
